@@ -408,6 +408,19 @@ func RunParent(chk *Check, opt Options) int {
 			}
 		}
 	}
+	if chk.MountFloors != nil && counters["kmount_unavailable"] == 0 && counters["drvc_unavailable"] == 0 {
+		fl := chk.MountFloors(opt.Tier)
+		keys := make([]string, 0, len(fl))
+		for k := range fl {
+			keys = append(keys, k)
+		}
+		sort.Strings(keys)
+		for _, k := range keys {
+			if counters[k] < fl[k] {
+				floorMisses = append(floorMisses, fmt.Sprintf("%s=%d<%d", k, counters[k], fl[k]))
+			}
+		}
+	}
 	if completed == 0 {
 		floorMisses = append(floorMisses, "no case completed")
 	}
@@ -445,6 +458,10 @@ func RunParent(chk *Check, opt Options) int {
 	}
 	if chk.Floors != nil {
 		cov["floors"] = chk.Floors(opt.Tier)
+	}
+	if chk.MountFloors != nil {
+		cov["mount_driver_floors"] = chk.MountFloors(opt.Tier)
+		cov["mount_drivers_available"] = counters["kmount_unavailable"] == 0 && counters["drvc_unavailable"] == 0
 	}
 	ev := map[string]any{
 		"property_id": chk.ID,
